@@ -542,8 +542,29 @@ def case_car(ctx, i):
     ferm = [k for k in range(L) if dense.is_fermionic(sites[k])]
     crea = {'FermionSite': ('Cd', 'C'), 'SpinHalfFermionSite': ('Cdu', 'Cu')}
     D = int(np.prod([s.dim for s in sites]))
-    mode = str(rng.choice(['pairs', 'pairs', 'multi', 'model']))
+    mode = str(rng.choice(['pairs', 'pairs', 'multi', 'model', 'correlations']))
     case = {'part': 'car', 'kind': kind, 'L': L, 'mode': mode}
+    if mode == 'correlations':
+        # correlation functions of fermionic operators in a random state vs the dense Jordan-Wigner operators (the measurement
+        # functions and their oracles are those of the C08 check, driven here on fermionic chains only)
+        import checks.C08 as C8
+        fkind = str(rng.choice(['fermion_N', 'fermion_parity', 'fermion']))
+        try:
+            psi, vec, sites_, k_, qt = C8.make_state(ctx, rng, L=int(rng.integers(4, 7)), kind=fkind)
+            fn = str(rng.choice(['correlation_function', 'term_correlation_function', 'term_list_correlation_function', 'term_list_correlation_function']))
+            case.update(function=fn, sites=k_, qtotal=np.asarray(qt).tolist())
+            ctx.count('car.correlations')
+            ctx.count('car.correlations.' + fn)
+            getattr(C8, 'do_' + fn)(ctx, rng, psi, vec, sites_, k_, qt, case)
+        except C8._Skip:
+            raise _Skip()
+        except Exception as e:
+            tb = traceback.format_exc()
+            if '/tenpy/' not in tb:
+                raise
+            ctx.violation('car.correlations:raises-%s' % type(e).__name__, tb[-600:], case)
+        ctx.sig(('car', 'correlations', case.get('function'), repr(case.get('options'))[:200]), nontrivial=True)
+        return
 
     def mpo_matrix(terms, strengths):
         tl = TermList(terms, strengths)
